@@ -106,3 +106,155 @@ def notebook_case(b, l, r, args):
     nb, nl, nr = mergelib.nbnode(b), mergelib.nbnode(l), mergelib.nbnode(r)
     ld, rd = diff_notebooks(nb, nl), diff_notebooks(nb, nr)
     return nb, ld, rd, notebook_merge_strategies(args)
+
+
+def generic_case(b, l, r):
+    """decide_merge(base, local, remote) on generic JSON: generic diffs, empty strategy table"""
+    import nbdime
+    from nbdime.utils import Strategies
+    return copy.deepcopy(b), nbdime.diff(b, l), nbdime.diff(b, r), Strategies({})
+
+
+def correspond(ctx, drv, cases, label='merge-model'):
+    """cases: (tag, base, local_diff, remote_diff, strategies, helper-or-None, data-for-replay).
+    Runs decide_merge_with_diff and the Lean merger on each; returns the mismatches."""
+    metas, reqs = [], []
+    for tag, base, ld, rd, S, helper, data in cases:
+        if helper:
+            with mergelib.renderer(helper):
+                res, req = impl_decide(base, ld, rd, S)
+        else:
+            res, req = impl_decide(base, ld, rd, S)
+        metas.append((tag, res, data))
+        reqs.append(req)
+    mism = []
+    for (tag, res, data), rep in zip(metas, drv.run(reqs) if reqs else []):
+        ctx.cov['traces_validated_against_impl'] += 1
+        ctx.count(label + ':cases')
+        if 'ok' in res:
+            ctx.count(label + ':decisions', len(res['ok']))
+            ctx.count(label + ':conflicted', sum(1 for d in res['ok'] if d['conflict']))
+            ctx.count(label + ':custom', sum(1 for d in res['ok'] if d['action'] == 'custom'))
+        else:
+            ctx.count(label + ':impl-raises')
+        if not same(res, rep):
+            mism.append({'stream': label, 'tag': tag, 'difference': first_difference(res, rep), 'case': data})
+    ctx.cov['correspondence_mismatches'] = ctx.cov.get('correspondence_mismatches', 0) + len(mism)
+    return mism
+
+
+def report(ctx, mism, theorems):
+    """a broken correspondence with no failing input found by the property search"""
+    if mism and not any(found for _, _, found in ctx.violations):
+        ctx.violation('the Lean model of the merger (theorems %s) and decide_merge_with_diff disagree on %d case(s); first: %s'
+                      % (', '.join(theorems), len(mism), json.dumps(mism[0]['difference'])[:300]),
+                      {'kind': 'correspondence', 'stream': mism[0]['stream'], 'theorems': theorems, 'first': mism[0]},
+                      found=False, classify=False)
+
+
+def small_generic(rng):
+    """generic JSON triples: lists, line strings, objects over a small alphabet, nested one level"""
+    alpha = ['a', 'b', 'c', 'd']
+    kind = rng.choice(['list', 'str', 'dict', 'nested'])
+
+    def lst():
+        return [rng.choice(alpha) for _ in range(rng.randint(0, 4))]
+
+    def edit(xs):
+        xs = list(xs)
+        for _ in range(rng.randint(0, 2)):
+            op = rng.choice(['ins', 'del', 'rep'])
+            if op == 'ins' or not xs:
+                xs.insert(rng.randint(0, len(xs)), rng.choice(alpha))
+            elif op == 'del':
+                del xs[rng.randrange(len(xs))]
+            else:
+                xs[rng.randrange(len(xs))] = rng.choice(alpha)
+        return xs
+    if kind == 'list':
+        b = lst()
+        return b, edit(b), edit(b)
+    if kind == 'str':
+        b = [x * rng.randint(1, 3) + '\n' for x in lst()]
+        return ''.join(b), ''.join(edit(b)), ''.join(edit(b))
+    if kind == 'dict':
+        def d():
+            return {k: rng.choice(alpha) for k in 'xyz' if rng.random() < 0.6}
+        return d(), d(), d()
+    b = {'p': lst(), 'q': {'s': ''.join(x + '\n' for x in lst()), 't': lst()}, 'r': [lst(), lst()]}
+    def ed(doc):
+        doc = copy.deepcopy(doc)
+        if rng.random() < 0.6:
+            doc['p'] = edit(doc['p'])
+        if rng.random() < 0.6:
+            doc['q']['s'] = ''.join(edit(doc['q']['s'].splitlines(True)))
+        if rng.random() < 0.5:
+            doc['q']['t'] = edit(doc['q']['t'])
+        if rng.random() < 0.5 and doc['r']:
+            i = rng.randrange(len(doc['r']))
+            doc['r'][i] = edit(doc['r'][i])
+        if rng.random() < 0.2:
+            doc.pop(rng.choice(sorted(doc)))
+        return doc
+    return b, ed(b), ed(b)
+
+
+def run_stream(ctx, drv, rng, n_nb, n_generic, combos=None, label='merge-model'):
+    """generated notebook triples x strategy combinations x helpers, and generic triples"""
+    import gen_nb
+    combos = combos or mergelib.all_combos()
+    cases = []
+    for t in range(n_nb):
+        b, l, r, kinds = gen_nb.any_triple(rng, minor_change=rng.random() < 0.15)
+        a = combos[t % len(combos)] if t < len(combos) and len(combos) <= 12 else rng.choice(combos)
+        md = mergelib.RENDERERS[t % 3]
+        try:
+            nb, ld, rd, S = notebook_case(b, l, r, a)
+        except Exception:
+            ctx.count(label + ':differ-raises')
+            continue
+        ctx.count(label + ':strategy:' + str(a.merge_strategy))
+        cases.append(('nb', nb, ld, rd, S, md, {'b': enc(b), 'l': enc(l), 'r': enc(r), 'strategy': a.key(), 'helper': md, 'scenario': kinds}))
+    for t in range(n_generic):
+        b, l, r = small_generic(rng)
+        try:
+            base, ld, rd, S = generic_case(b, l, r)
+        except Exception:
+            ctx.count(label + ':differ-raises')
+            continue
+        cases.append(('generic', base, ld, rd, S, None, {'b': enc(b), 'l': enc(l), 'r': enc(r), 'generic': True}))
+    return correspond(ctx, drv, cases, label)
+
+
+def replay_case(data):
+    """re-run one recorded correspondence case; returns 1 when model and implementation still disagree"""
+    from vlib import dec
+    c = data['first']['case']
+    b, l, r = dec(c['b']), dec(c['l']), dec(c['r'])
+    if c.get('generic'):
+        base, ld, rd, S = generic_case(b, l, r)
+        helper = None
+    else:
+        base, ld, rd, S = notebook_case(b, l, r, mergelib.Args(*c['strategy']))
+        helper = c.get('helper')
+    if helper:
+        with mergelib.renderer(helper):
+            res, req = impl_decide(base, ld, rd, S)
+    else:
+        res, req = impl_decide(base, ld, rd, S)
+    rep = vlib.Driver().run([req])[0]
+    if same(res, rep):
+        print('model and implementation agree on the recorded case')
+        return 0
+    print('DISAGREE:', json.dumps(first_difference(res, rep))[:800])
+    return 1
+
+
+def tie(ctx, sizes, theorems, combos=None):
+    """standard use from a check: stream + report"""
+    n_nb, n_gen = sizes[0:2] if ctx.tier == 'quick' else sizes[2:4]
+    import random
+    rng = random.Random('%s/merge-model/%s/%d' % (ctx.pid, ctx.tier, ctx.seed))
+    mism = run_stream(ctx, vlib.Driver(), rng, n_nb, n_gen, combos)
+    ctx.cov['merge_model_theorems'] = theorems
+    report(ctx, mism, theorems)
